@@ -211,3 +211,62 @@ func VerifH_C07_null() {
 	symAssert(k.Type == v1proto.Type_NULL, "null-type")
 	symReach("end")
 }
+
+// H07c: on a real tree (entries_per_node 2, keys 1..4 with their real integer
+// layers 0,1,0,2), a second INSERT of a key that compares equal to an existing
+// one is a constraint failure — never a second row, a panic or a corrupted
+// table — and a NULL key is rejected, also when the table already holds rows.
+// The layer of the REAL key (a crc64 of its formatted value in the real code)
+// is left symbolic in 0..2.
+func VerifH_C07_insert_equal() {
+	class := symChoice("class", 4) // of the second insert: INT equal, REAL numerically equal, TEXT (distinct), NULL
+	intLayer := defaultLayer
+	defaultLayer = func(i interface{}, bf uint) (uint8, error) {
+		switch i.(type) {
+		case int64:
+			return intLayer(i, bf)
+		case string:
+			if class == 1 {
+				l := symUint8("real_key_layer")
+				symAssume(l <= 2)
+				return l, nil
+			}
+		}
+		return 0, nil
+	}
+	bkt := vNewBucket()
+	w := vMustOpen(bkt.client(1), vTableOpts{bf: 2}, 10)
+	n := symParam("keys", 4)
+	for k := 1; k <= n; k++ {
+		symAssert(vIns(w, int64(100+k), int64(k), int64(k), nil) == nil, "insert-ok")
+	}
+	if symChoice("committed", 2) == 1 {
+		symAssert(w.Commit(vCtx) == nil, "commit-ok")
+	}
+	before, err := vScan(w)
+	symAssert(err == nil, "scan-ok")
+	target := int64(1 + symChoice("which", n))
+	var err2 error
+	switch class {
+	case 0:
+		err2 = vIns(w, 500, target, int64(9), nil)
+		symAssert(err2 == ErrS3DBConstraintPrimaryKey, "equal-key-is-a-constraint-failure")
+	case 1:
+		err2 = vIns(w, 500, float64(target), int64(9), nil)
+		symAssert(err2 == ErrS3DBConstraintPrimaryKey, "equal-key-is-a-constraint-failure")
+	case 2:
+		err2 = vIns(w, 500, "x", int64(9), nil)
+		symAssert(err2 == nil, "distinct-key-accepted")
+	case 3:
+		err2 = vIns(w, 500, nil, int64(9), nil)
+		symAssert(err2 == ErrS3DBConstraintNotNull, "null-key-rejected")
+	}
+	after, err := vScan(w)
+	symAssert(err == nil, "scan-after-ok")
+	if class != 2 {
+		symAssert(vRowsEq(before, after), "table-unchanged-by-refused-insert")
+	} else {
+		symAssert(len(after) == len(before)+1, "distinct-key-adds-one-row")
+	}
+	symReach("end")
+}
